@@ -167,6 +167,8 @@ TView ==
         \cup (IF E.ok /\ E.hasraw THEN Cmp(E.rawrefs, RawRefs(ts), "C03_RawRefs") ELSE {})
         \cup (IF E.ok /\ E.hasraw THEN Cmp(E.rawlogs, RawLogs(ts), "C03_RawLogs") ELSE {})
         \cup (IF "interleave" \in DOMAIN E THEN Cmp(E.interleave, "", "C03_StableResults") ELSE {})
+        \* the same walk with one positional read of a table file failing: an error, or the same answer - never another answer
+        \cup (IF "faulty" \in DOMAIN E THEN Cmp(E.faulty, "", "C03_FaultyReadAnswers") ELSE {})
   /\ UNCHANGED <<tabs, loaded, nextTab>> /\ Step
 
 TSeekRef ==
